@@ -174,9 +174,12 @@ func engineMove(ctx context.Context, f, s string, legal map[string]ref.Move) (ms
 
 func checkC19(c *harness.Check) {
 	mustAnchors(c)
-	sym := []string{"a", "h", "e", "1", "8", "9", "0", "q", "k", "p", "x", " ", "é", "٣", "\x00", "A", "Q", "-"}
+	// beyond plain ASCII: NUL, a 2-byte rune, a non-ASCII digit, and runes that alias an ASCII symbol
+	// under a narrowing conversion (same low byte: U+0131='1', U+0138='8', U+0161='a', U+0168='h',
+	// U+0171='q'; same low 16 bits: U+10031='1', U+10061='a')
+	sym := []string{"a", "h", "e", "1", "8", "9", "0", "q", "k", "p", "x", " ", "é", "٣", "\x00", "A", "Q", "-", "ı", "ĸ", "š", "Ũ", "ű", "\U00010031", "\U00010061"}
 	maxLen := 5
-	c.Rule = fmt.Sprintf("(a) every string of <= %d symbols over %q into ParseMove and ParseSquareStr; (b) every FEN whose board field is a word of <= %d tokens over {K,k,p,1,3,8,9,0,/,arabic-3,x, 8/8/8/8, 8/8/8/8/8/8/8/7, 9x28 (run-length macros: the square cursor is a small unsigned integer)} with canonical other fields, and valid boards crossed with field alphabets for side/castling/e.p./clocks; (c) every single (thorough: and double) edit - replace, insert, delete over a 22-symbol alphabet - of %d valid FENs; (d) for every BFS node (depth<=1) of the seed corpus all 64x64x(none,q,r,b,n,k,p) move strings + case/length variants through Engine.Move: accepted iff reference-legal, successor FEN standard, state snapshot unchanged on rejection. Oracle for decoding: no panic; error or non-nil self-consistent position whose re-encoding decodes to the same position. distinct_nontrivial = accepted inputs", maxLen, sym, c.Pick(5, 6), 10)
+	c.Rule = fmt.Sprintf("(a) every string of <= %d symbols over %q into ParseMove and ParseSquareStr; (b) every FEN whose board field is a word of <= %d tokens over {K,k,p,1,3,8,9,0,/,arabic-3,x, 8/8/8/8, 8/8/8/8/8/8/8/7, 9x28 (run-length macros: the square cursor is a small unsigned integer)} with canonical other fields, and valid boards crossed with field alphabets for side/castling/e.p./clocks; (c) every single (thorough: and double) edit - replace, insert, delete over a 30-symbol alphabet - of %d valid FENs; (d) for every BFS node (depth<=1) of the seed corpus all 64x64x(none,q,r,b,n,k,p) move strings + case/length variants through Engine.Move: accepted iff reference-legal, successor FEN standard, state snapshot unchanged on rejection. Oracle for decoding: no panic; error or non-nil self-consistent position whose re-encoding decodes to the same position. distinct_nontrivial = accepted inputs", maxLen, sym, c.Pick(5, 6), 10)
 
 	// (a) short strings into the two parsers
 	var cc classCap
@@ -247,7 +250,7 @@ func checkC19(c *harness.Check) {
 	boards := []string{"8/8/8/8/8/8/8/8", "rnbqkbnr/pppppppp/8/8/8/8/PPPPPPPP/RNBQKBNR", "r3k2r/8/8/8/8/8/8/R3K2R", "4k3/8/8/3pP3/8/8/8/4K3"}
 	sides := []string{"w", "b", "W", "B", "x", "", "wb", "-"}
 	rights := []string{"-", "KQkq", "K", "qk", "KK", "x", "Kx", "", "kqKQ", "QQQQQQQQQ"}
-	eps := []string{"-", "e3", "e6", "d6", "a1", "h8", "h1", "e9", "i3", "e", "e33", "E3", "٣3"}
+	eps := []string{"-", "e3", "e6", "d6", "a1", "h8", "h1", "e9", "i3", "e", "e33", "E3", "٣3", "eĳ", "eĸ", "šĳ", "e\U00010033"}
 	nums := []string{"0", "1", "99", "100", "-1", "x", "", "99999999999999999999", "+1", "1.0", "0x10", " 1", "٣"}
 	for _, b := range boards {
 		for _, s := range sides {
@@ -273,7 +276,7 @@ func checkC19(c *harness.Check) {
 	valid := []string{corpus.Initial, corpus.Kiwipete, "8/2p5/3p4/KP5r/1R3p1k/8/4P1P1/8 w - - 0 1", "rnbqkbnr/ppp1pppp/8/8/3pP3/8/PPPP1PPP/RNBQKBNR b KQkq e3 0 3",
 		"r3k2r/8/8/8/8/8/8/R3K2R w KQkq - 12 30", "n1n5/PPPk4/8/8/8/8/4Kppp/5N1N b - - 0 1", "8/8/8/8/8/8/8/8 w - - 0 1", "k7/8/8/8/8/8/8/7K b - - 99 120",
 		"4k3/8/8/8/4P3/8/8/4K3 b - e3 0 1", "QQQQQQQQ/Q7/8/8/8/8/7k/K7 b - - 0 1"}
-	edits := []string{"K", "k", "p", "P", "1", "7", "8", "9", "0", "/", " ", "-", "w", "b", "q", "e", "3", "x", "٣", "é", "\x00", "+"}
+	edits := []string{"K", "k", "p", "P", "1", "7", "8", "9", "0", "/", " ", "-", "w", "b", "q", "e", "3", "x", "٣", "é", "\x00", "+", "ı", "ĸ", "š", "ũ", "ŋ", "ő", "ī", "\U00010031"}
 	mutate := func(s string, emit func(string)) {
 		rs := []rune(s)
 		for i := 0; i <= len(rs); i++ {
@@ -394,6 +397,15 @@ func checkC19(c *harness.Check) {
 			try(m + "q")
 			try(m[:3])
 			try(m + "qq")
+			// the same text with one character replaced by a rune that has the same low byte / low 16 bits
+			rs := []rune(m)
+			for i := range rs {
+				for _, off := range []rune{0x100, 0x10000} {
+					alias := append([]rune(nil), rs...)
+					alias[i] += off
+					try(string(alias))
+				}
+			}
 		}
 		c.Traces.Add(1)
 	})
